@@ -56,6 +56,12 @@ CHECKS.update({
    technique="Lean 4 theorems by kernel evaluation (decide +kernel) over regenerated finite tables"),
 })
 
+CHECKS["C15"] = dict(category="proof",
+   text="For every byte string: an accepted contents entry is returned relative, without backslash, without a '..' path segment and with the .fga suffix (modfile_safe); an entry without '%', '+' or backslash is returned verbatim (modfile_verbatim); every item yields exactly one outcome, path or error, in order (items_one_each); an accepted manifest has schema exactly \"1.2\" of tag !!str, a !!seq contents node, as many returned paths as entries and only safe paths (modfile_accepts). These are Lean theorems about the port of the checks of TransformModFile; the port is tied to the code by correspondence (exhaustive over the 15-letter escape alphabet to length 4-5 plus .fga, random longer entries, whole manifests over the nodes yaml.v3 produced). The position clause (line/column point at the value) depends on yaml.v3 and is checked by an oracle on the real code, not proved.",
+   design_ref="DESIGN.md §6.15",
+   note="yaml.v3 (node tags, values, positions) and net/url.QueryUnescape are parameters: the latter is ported (queryUnescape) and validated by the correspondence; the former is an input of the model",
+   technique="Lean 4 theorems over a hand-written model + differential correspondence vs the real TransformModFile")
+
 NOT_YET = {}
 
 def main():
